@@ -1192,7 +1192,25 @@ impl<'a> Gen<'a> {
         }
     }
 
+    /// a function with two type parameters declared in an order that is not the alphabetical one, and an inferred
+    /// return type that mentions them: the echo has to attach names and bounds to the right parameters
+    fn function2(&mut self) -> Stmt {
+        let name = self.fresh("fn");
+        let (p1, p2) = *self.rng.pick(&[("T", "A"), ("Z", "D"), ("B", "A"), ("D", "C")]);
+        let b2 = self.rng.chance(1, 2);
+        // the first parameter is always a dimension (it is used arithmetically in some bodies)
+        let tparams = vec![(p1.to_string(), true), (p2.to_string(), b2)];
+        let params = vec![("x".to_string(), Some(p1.to_string())), ("y".to_string(), Some(p2.to_string()))];
+        let body_text = if b2 { *self.rng.pick(&["x", "y", "x * y", "x / y^2", "x * x"]) } else { *self.rng.pick(&["x", "y", "x * x"]) };
+        let body = G::leaf(Ty::Gen, body_text);
+        let probes = vec![format!("{}(2 m, 3 s)", name), format!("{}(2, 3)", name)];
+        Stmt { s: S::Fn { name, tparams, params, ret: None, body: Some(body), wheres: vec![], decos: vec![] }, probes }
+    }
+
     fn function(&mut self, depth: usize) -> Stmt {
+        if self.rng.chance(1, 8) {
+            return self.function2();
+        }
         let name = self.fresh("fn");
         let generic = self.rng.chance(1, 3);
         let saved = self.env.vars.len();
